@@ -24,7 +24,7 @@ const rule = "cases: option maps whose host is drawn from a grammar {IPv4 litera
 func TestMain(m *testing.M) { ev.Main(m, "C17", rule) }
 
 type Case struct {
-	Opts [][2]string `json:"opts_hex"` // unique keys
+	Opts [][2]string `json:"opts_hex"`      // unique keys
 	Rot  int         `json:"rot,omitempty"` // rotation of the reversed wire order
 }
 
